@@ -113,6 +113,15 @@ def _safe_ref(self, name):
 
 # ------------------------------------------------------------------ post-conditions
 
+def _plain(inputs, n):
+    """First n input values with the library's three-valued Undefined mapped to None (its == and bool() raise)."""
+    out = []
+    for i in range(n):
+        v = inputs[i]
+        out.append(v if isinstance(v, (bool, int)) else None)
+    return out
+
+
 def post_evaluate(state, args, kwargs, result):
     self, inputs = args[0], (args[1] if len(args) > 1 else kwargs['inputs'])
     ctx = CUR['ctx']
@@ -122,6 +131,9 @@ def post_evaluate(state, args, kwargs, result):
     net, vals, ns = r
     if len(inputs) < len(net.inputs):
         ctx.mon('evaluate', 'skipped_short')
+        return
+    if not all(v is True or v is False or v == 0 or v == 1 for v in _plain(inputs, len(net.inputs))):
+        ctx.mon('evaluate', 'skipped_not_total')   # Undefined inputs: partial evaluation is C15's subject
         return
     k = 0
     for i in range(len(net.inputs)):
@@ -141,6 +153,10 @@ def post_evaluate_at(state, args, kwargs, result):
     if r is None:
         return
     net, vals, ns = r
+    if len(inputs) < len(net.inputs) or not all(v is True or v is False or v == 0 or v == 1
+                                                for v in _plain(inputs, len(net.inputs))):
+        ctx.mon('evaluate_at', 'skipped_not_total')
+        return
     k = 0
     for i in range(len(net.inputs)):
         k = (k << 1) | (1 if inputs[i] else 0)
